@@ -52,6 +52,27 @@ Theorem C50_status_range : forall fs root meth name ae def compress,
 Proof. exact serve_status_range. Qed.
 Print Assumptions C50_status_range.
 
+(* Missing files are answered 404: a GET/HEAD for a plain path "/e1/../en" (no empty, ".", "..", NUL or over-long
+   element; plain_path in run/RunC50.v) under a root of ordinary elements, with nothing stored at root/e1/../en,
+   no default file and pre-compressed lookup off, gets 404 without body. *)
+Theorem C50_missing_404 : forall fs root meth name ae es,
+  (meth = GET \/ meth = HEAD) -> plain_path name = Some es -> forallb plain_elem root = true ->
+  fs_get fs (root ++ es) = None ->
+  serve fs root meth name ae [] false = {| r_status := 404; r_body := []; r_clen := []; r_cenc := [] |}.
+Proof. exact missing_404. Qed.
+Print Assumptions C50_missing_404.
+
+(* The requested file is the one served: in a tree whose every entry has its parent directories listed
+   (fs_closed), a GET/HEAD for a plain path naming a regular file returns 200 with exactly its bytes (HEAD: none),
+   its decimal length, and no Content-Encoding, whatever the default file is. *)
+Theorem C50_plain_file_served : forall fs root meth name ae def es c,
+  (meth = GET \/ meth = HEAD) -> plain_path name = Some es -> fs_closed fs = true ->
+  fs_get fs (root ++ es) = Some (NFile c) ->
+  serve fs root meth name ae def false =
+    {| r_status := 200; r_body := if bytes_eqb meth HEAD then [] else c; r_clen := dec_of_Z (blen c); r_cenc := [] |}.
+Proof. exact plain_file_served. Qed.
+Print Assumptions C50_plain_file_served.
+
 (* The executable property predicate evaluated by the harness on the implementation (prop_C50 in run/RunC50.v:
    200 => bytes and length of a file under the root; other methods => 405; non-200 => no body/length; a plain
    path (no empty, dot, dot-dot, NUL or over-long element) naming an existing file serves exactly that file, and
